@@ -16,8 +16,14 @@ ps <start> <textcps> <raw>                                -> the same for parse(
       raw   = - | GROUP~valuecps;…   (the lexemes found by `re`, before naming and skipping)
 amb                                                       -> amb=<0|1>   (is_ambiguous() again, after the parses)
 prods | suffix | table | nullables | first | follow       -> diagnostics (not part of the verdict)
+use <k>                                                   -> ok          (make the k-th parser of this case current)
+pl <textcps> <raw>                                        -> as `p`; the real parser gets the text as a list of lines
 reset                                                     -> ok
 ```
+Optional extra fields of `g`: `T=<tmpl>/<gen>/<seq>` (comma lists or `-`): keys given as a template, symbols the
+templates generated, `ProdSequence` symbols (their nodes are shown flattened: `[S item item …]`);
+`K=…` (argument kinds for the real constructor, ignored here).  Every `g` adds a parser object; the earlier
+ones stay alive and unchanged (`use`).
 -/
 namespace LL.Drv
 open Ak Ak.Proto LL
@@ -98,18 +104,49 @@ def showTable (T : Table Sym) : String :=
     showName k.1 ++ "/" ++ showName k.2 ++ "=" ++
       (match dget k T with | some l => "|".intercalate (l.map fun r => showRhs r.rhs) | none => "?"))
 
-mutual
-def showTree : Tree Sym → String
-  | .leaf n v => showName n ++ ":" ++ showCps v
-  | .node n cs => "(" ++ showName n ++ showTrees cs ++ ")"
-def showTrees : List (Tree Sym) → String
-  | [] => ""
-  | t :: ts => " " ++ showTree t ++ showTrees ts
-end
+/-- children of a completed `ProdSequence` node `S -> (S__ELEMENT, S) | ()`, outermost first -/
+def seqChain : Nat → Tree Sym → List (Tree Sym)
+  | 0, _ => []
+  | fuel + 1, .node _ [el, tail] => el :: seqChain fuel tail
+  | _, _ => []
 
-def handleG (args : List String) : Option Parser × String :=
+/-- the tree as `parse(do_cleanup=False)` returns it: nodes of sequence symbols are flattened
+(`_process_seq_telement`: the list of the matched members) -/
+def showTreeF (seqs : List (List Char)) : Nat → Tree Sym → String
+  | 0, _ => "?"
+  | _, .leaf n v => showName n ++ ":" ++ showCps v
+  | fuel + 1, .node n cs =>
+    if n.name ∈ seqs then
+      let items := (seqChain 10000000 (.node n cs)).map fun el =>
+        match el.children with
+        | [m] => showTreeF seqs fuel m
+        | _ => "?"
+      "[" ++ " ".intercalate (showName n :: items) ++ "]"
+    else "(" ++ " ".intercalate (showName n :: cs.map (showTreeF seqs fuel)) ++ ")"
+
+def showTree (seqs : List (List Char)) (t : Tree Sym) : String := showTreeF seqs 10000000 t
+
+/-- the parser objects of one case (with their `ProdSequence` symbols) and the current one -/
+structure DState where
+  slots : List (Parser × List (List Char)) := []
+  cur : Nat := 0
+
+def DState.get (st : DState) : Option (Parser × List (List Char)) := st.slots[st.cur]?
+
+def parseList (s : String) : List (List Char) := (splitNonEmpty s ",").map parseName
+
+def parseTmpl (extras : List String) : Tmpl × List (List Char) :=
+  match extras.find? (fun e => e.startsWith "T=") with
+  | some e =>
+    match (e.drop 2).toString.splitOn "/" with
+    | [a, b, c] => (⟨parseList a, parseList b⟩, parseList c)
+    | _ => (Tmpl.none, [])
+  | none => (Tmpl.none, [])
+
+/-- the arguments of a `g` request -/
+def decodeG (args : List String) : Option (Tmpl × List (List Char) × CtorIn) :=
   match args with
-  | [smart, start, tok, syn, kw, skip, prods] =>
+  | smart :: start :: tok :: syn :: kw :: skip :: prods :: extras =>
     let groups := (splitNonEmpty tok ";").mapM fun it =>
       match it.splitOn "~" with
       | n :: _ => some (parseName n)
@@ -119,36 +156,53 @@ def handleG (args : List String) : Option Parser × String :=
       let inp : CtorIn := { groups := groups, syn := syn, kw := kw, skip := parseSkip skip,
                             start := parseName (if start = "-" then "E" else start), prods := prods,
                             smart := smart = "1" }
-      match construct inp with
-      | .ok P => (some P, "ok amb=" ++ (if isAmbiguous P.table then "1" else "0"))
-      | .error e => (none, "err " ++ e.name)
-    | _, _, _, _ => (none, "bad-op")
-  | _ => (none, "bad-op")
+      let (T, seqs) := parseTmpl extras
+      some (T, seqs, inp)
+    | _, _, _, _ => none
+  | _ => none
 
-def handle (st : Option Parser) (line : String) : Option Parser × String :=
+/-- a new parser object is appended and becomes current; after a failed construction there is no current parser -/
+def addResult (st : DState) (seqs : List (List Char)) : Except Err Parser → DState × String
+  | .ok P => ({ slots := st.slots ++ [(P, seqs)], cur := st.slots.length },
+              "ok amb=" ++ (if isAmbiguous P.table then "1" else "0"))
+  | .error e => ({ st with cur := st.slots.length }, "err " ++ e.name)
+
+def handleG (st : DState) (args : List String) : DState × String :=
+  match decodeG args with
+  | some (T, seqs, inp) => addResult st seqs (constructG T inp)
+  | none => ({ st with cur := st.slots.length }, "bad-op")
+
+def parseReply (seqs : List (List Char)) : Except Err (Tree Sym) → String
+  | .ok t => "tree " ++ showTree seqs t
+  | .error e => "err " ++ e.name
+
+def handle (st : DState) (line : String) : DState × String :=
   match splitWs line with
-  | "reset" :: _ => (none, "ok")
-  | "g" :: args => handleG args
+  | "reset" :: _ => ({}, "ok")
+  | "g" :: args => handleG st args
+  | ["use", k] =>
+    match k.toNat? with
+    | some n => ({ st with cur := n }, "ok")
+    | none => (st, "bad-op")
   | ["p", _, raw] =>
-    match st, parseRaw raw with
-    | some P, some toks =>
-      (st, match P.parse toks parseFuel with
-           | .ok t => "tree " ++ showTree t
-           | .error e => "err " ++ e.name)
+    match st.get, parseRaw raw with
+    | some (P, seqs), some toks => (st, parseReply seqs (P.parse toks parseFuel))
+    | none, _ => (st, "nogrammar")
+    | _, none => (st, "bad-op")
+  | ["pl", _, raw] =>
+    match st.get, parseRaw raw with
+    | some (P, seqs), some toks => (st, parseReply seqs (P.parse toks parseFuel))
     | none, _ => (st, "nogrammar")
     | _, none => (st, "bad-op")
   | ["ps", s, _, raw] =>
-    match st, parseRaw raw with
-    | some P, some toks =>
-      (st, match P.parseFrom (parseName s) toks parseFuel with
-           | .ok t => "tree " ++ showTree t
-           | .error e => "err " ++ e.name)
+    match st.get, parseRaw raw with
+    | some (P, seqs), some toks => (st, parseReply seqs (P.parseFrom (parseName s) toks parseFuel))
     | none, _ => (st, "nogrammar")
     | _, none => (st, "bad-op")
   | [op] =>
-    match st with
+    match st.get with
     | none => (st, "nogrammar")
-    | some P =>
+    | some (P, _) =>
       (st, match op with
         | "amb" => "amb=" ++ (if isAmbiguous P.table then "1" else "0")
         | "prods" => showProds P.prods
